@@ -80,6 +80,10 @@ CHECKS = {
          'Bounded verification: for the stated small sizes every random outcome yields the promised structure and every out-of-range or non-numeric argument is refused with ValueError; larger requests are covered for six adversarial draw streams only (stated as such).',
          'Trusted: RNG stub contract, independent constructions / networkx isomorphism test, CrossHair accounting. Outside: random outcomes beyond the tape bound, larger sizes.',
          'DESIGN.md section 3 C15'),
+ 'C17': ('CrossHair/z3-accounted exhaustive walk of an argv grammar (numbers, option subsets, graph-argument menus, -T chains) through the real command line tools, compared with the library generators',
+         'Bounded exhaustive verification (enumerative mode): every point of the grammar - all sub-commands, all documented options, one- and two-step transformation chains, both tools - yields exactly the formula (class, names, rows) of the documented library call.',
+         'Trusted: the table of documented library calls written from the help texts; in-memory file stub for save; CrossHair accounting. Outside: larger arguments, argv outside the grammar.',
+         'DESIGN.md section 3 C17'),
 }
 NA = {}
 
